@@ -1339,7 +1339,9 @@ def directed_cases(prop):
     out = []
     if prop in ('C01', 'C02', 'C07', 'C15'):
         calls = [['call', ['a-b'], {}], ['call', ['a_b'], {}], ['call', ['a-b'], {}], ['call', ['a_b'], {}],
-                 ['call', [1], {}], ['call', ['1'], {}], ['call', [1], {}]]
+                 ['call', [1], {}], ['call', ['1'], {}], ['call', [1], {}],
+                 # ... and with another call in between, so that the alias is looked up while only its partner is archived
+                 ['call', ['a-b'], {}], ['call', ['x'], {}], ['call', ['a_b'], {}], ['call', ['x'], {}], ['call', ['a-b'], {}]]
         out.append({'cfg': {'algo': 'lru', 'safe': False, 'maxsize': 1, 'maxsize_positional': False, 'purge': False,
                             'keymap': dict(km_s, cls='picklemap'), 'backend': {'kind': 'dir', 'serialized': True, 'protocol': None}},
                     'sig': 'x', 'ops': calls, 'seed': 1, 'focus': prop, 'directed': True})
